@@ -144,7 +144,7 @@ def gen_scenario(r, cls: str) -> Dict[str, Any]:
     sc["max_concurrent"] = r.choice([1, 2, 3, 50, 50])
 
     # ---- bars --------------------------------------------------------------------------
-    nbars = {"long": r.randint(250, 420), "long_q": r.randint(110, 170), "precision": r.randint(6, 20)}.get(cls, r.randint(5, 40))
+    nbars = {"long": r.randint(250, 420), "long_q": r.randint(140, 300), "precision": r.randint(6, 20)}.get(cls, r.randint(5, 40))
     vol_units = [D(x) for x in ("0", "1", "3", "10", "100", "1000")]
     vol_mult = [D(x) for x in ("1", "0.37", "2.5", "1.111")]
     vols = [a * b for a in vol_units for b in vol_mult]
